@@ -10,17 +10,19 @@ Section Inc.
 Variable rules : key -> rule.
 Variable F : key -> N -> list value -> list N -> N -> N.
 Variable rank : key -> nat.
+Variable R : key -> N -> rule.
 Variable ord : key -> list rkind.
 Variable syncp : key -> bool.
 Hypothesis Hrank : wf_rank rules rank.
 Hypothesis Hwfd : wf_disc rules.
+Hypothesis HRt : table_ok rules R.
 Hypothesis Hord : forall k, In RReq (ord k).
-Notation HInv := (HInv rules F).
+Notation HInv := (HInv F R).
 
 Section Build.
 Variable env : key -> N.
 Notation cvK := (cvK rules env F rank).
-Notation BInv := (BInv rules env F rank).
+Notation BInv := (BInv rules env F rank R).
 
 Lemma BInv_mstep root s s' : Inv rules ctx0 s -> BInv root None s -> mstep rules env F ord syncp s s' -> nf s' -> BInv root None s'.
 Proof.
@@ -36,7 +38,7 @@ Qed.
 (* the state a build starts in: the state at rest, in a new epoch, with the request of the build queued *)
 Lemma BInv_start s0 root : HInv s0 -> BInv root None (start_build (iemit (bump s0) (EBuildStart root)) root).
 Proof.
-  intros [(Q1 & Q2 & Q3 & Q4 & Q5 & Q6 & Q7 & Q8 & Q9) Hnc Hdn Hbnd Hsig Hrows].
+  intros [(Q1 & Q2 & Q3 & Q4 & Q5 & Q6 & Q7 & Q8 & Q9) Hnc Hdn Hbnd Hrows].
   set (st := start_build _ root).
   assert (HR : forall k, rinfo_of st k = rinfo_of s0 k) by (intros k; unfold st, start_build; now autorewrite with iv).
   assert (HK : forall k, kind_of st k = kind_of s0 k) by (intros; unfold kind_of; now rewrite HR).
@@ -69,8 +71,7 @@ Proof.
     + intros k _. unfold cAt, bAt. rewrite HRes. apply (proj1 (Hbnd k)).
     + intros k. unfold cAt, bAt. rewrite HRes, HE. destruct (Hbnd k) as [H1 H2]. unfold cAt, bAt in *. lia.
     + intros k Hb. exfalso. unfold bAt in Hb. rewrite HRes, HE in Hb. destruct (Hbnd k) as [_ Hle]. unfold bAt in Hle. lia.
-    + intros k. unfold bAt. rewrite HRes. apply Hsig.
-    + intros k _ Hb _. unfold bAt in Hb. rewrite HRes in Hb. apply (rowok_step rules F s0 st k (HRes k)); [|now apply Hrows].
+    + intros k _ Hb _. unfold bAt in Hb. rewrite HRes in Hb. apply (rowok_step F R s0 st k (HRes k)); [|now apply Hrows].
       intros d _ _ _. left. unfold stored, cAt. rewrite HRes. split; auto. lia.
     + intros k Hc. exfalso. exact (Hnocur k Hc).
   - constructor.
@@ -102,13 +103,13 @@ Proof.
   split; [|].
   - constructor.
     + exact Q.
-    + apply (b_nc _ _ _ HC).
-    + intros k Hk. destruct (b_dn _ _ _ _ _ _ HS k Hk) as (_ & _ & _ & [(rq & H & _)|(rq & H & _)]); [rewrite Q2 in H|rewrite Q3 in H]; destruct H.
-    + intros k. split; [apply (b_bnd _ _ _ HC k (Hidle k))|apply (b_le _ _ _ HC k)].
-    + apply (b_sig _ _ _ HC).
-    + intros k Hb. destruct (curk_dec sf k) as [Hc|Hnc]; [|apply (b_rows _ _ _ HC k (Hidle k) Hb Hnc)].
+    + apply (b_nc _ _ _ _ HC).
+    + intros k Hk. destruct (b_dn _ _ _ _ _ _ _ HS k Hk) as (_ & _ & _ & [(rq & H & _)|(rq & H & _)] & _); [rewrite Q2 in H|rewrite Q3 in H]; destruct H.
+    + intros k. split; [apply (b_bnd _ _ _ _ HC k (Hidle k))|apply (b_le _ _ _ _ HC k)].
+    + intros k Hb. destruct (curk_dec sf k) as [Hc|Hnc]; [|apply (b_rows _ _ _ _ HC k (Hidle k) Hb Hnc)].
       (* a rule completed in this build: all its recorded inputs are complete now, and its value is the clean one *)
-      destruct (b_cstr _ _ _ HC k Hc) as (S1 & S2 & S3). cbn zeta in S1, S2, S3.
+      destruct (b_cstr _ _ _ _ HC k Hc) as (S0 & S1 & S2 & S3). cbn zeta in S0, S1, S2, S3.
+      assert (Erl : rule_of R sf k = rules k) by (unfold rule_of; rewrite S0; apply HRt).
       assert (Hdone : forall d, In d (deps sf k) -> curk sf (d_key d)).
       { intros d Hd. destruct (S3 d Hd) as [_ [H|(_ & [H|(rq & [H|(k0 & H)] & _)])]]; auto; exfalso.
         - unfold is_in_progress in H. destruct (Q9 (d_key d)) as (_ & H1 & H2 & _). destruct (kind_of sf (d_key d)); try discriminate; contradiction.
@@ -118,11 +119,11 @@ Proof.
       { apply map_ext_in. intros y Hy. apply (b_cur _ _ _ _ _ _ HT). apply S1. apply in_or_app. now left. }
       rewrite Hreq in S1. change (branch_keys (rules k) (map cvK (r_req (rules k)))) with (bkK rules env F rank k) in S1.
       destruct (cvK_some rules env F rank Hrank k) as (v & Hv).
-      destruct (concl_of_clean rules env F rank Hrank Hwfd sf k v (eq_sym Hv)) as [Hco Ho].
+      destruct (concl_of_clean rules env F rank R Hrank Hwfd HRt sf k v S0 (eq_sym Hv)) as [Hco Ho].
       { intros y Hy. apply in_app_or in Hy. destruct Hy as [Hy|Hy]; [destruct (S1 y) as [H1 H2]; [apply in_or_app; now left|split; auto; now apply (b_cur _ _ _ _ _ _ HT)]|].
         apply in_app_or in Hy. destruct Hy as [Hy|Hy]; [destruct (S1 y) as [H1 H2]; [apply in_or_app; now right|split; auto; now apply (b_cur _ _ _ _ _ _ HT)]|].
         split; [now apply S2|]. apply (b_cur _ _ _ _ _ _ HT). apply (Hdone (mkDep y false false)). now apply S2. }
-      exists v. split; [rewrite (b_cur _ _ _ _ _ _ HT k Hc); exact Hv|]. split; [exact Ho|]. split; [intros d Hd; apply S3, Hd|intros _; exact Hco].
+      exists v. split; [rewrite (b_cur _ _ _ _ _ _ HT k Hc); exact Hv|]. rewrite Erl. split; [exact Ho|]. split; [intros d Hd; apply S3, Hd|intros _; exact Hco].
   - assert (Hc : curk sf root).
     { destruct (b_root _ _ _ _ _ _ HT) as [H|[(k & H)|[H|H]]]; auto.
       - rewrite Q3 in H. destruct H.
@@ -134,14 +135,13 @@ End Build.
 
 Lemma HInv_frame s s' : (forall k, rinfo_of s' k = rinfo_of s k) -> quiescent s' -> is_usedb s' = is_usedb s -> is_epoch s' = is_epoch s -> HInv s -> HInv s'.
 Proof.
-  intros HR Q Hu He [H1 H3 H4 H5 H6 H7].
+  intros HR Q Hu He [H1 H3 H4 H5 H7].
   assert (HRes : forall k, res_of s' k = res_of s k) by (intros; unfold res_of; now rewrite HR).
   constructor; auto.
   - intros k. rewrite HR. apply H3.
   - intros k. unfold kind_of. rewrite HR. apply H4.
   - intros k. unfold cAt, bAt. rewrite HRes, He. apply H5.
-  - intros k. unfold bAt. rewrite HRes. apply H6.
-  - intros k. unfold bAt. rewrite HRes. intros Hb. apply (rowok_step rules F s s' k (HRes k)); [|now apply H7].
+  - intros k. unfold bAt. rewrite HRes. intros Hb. apply (rowok_step F R s s' k (HRes k)); [|now apply H7].
     intros d _ _. left. unfold stored, cAt. rewrite HRes. split; auto. lia.
 Qed.
 
@@ -152,7 +152,6 @@ Proof.
   - intros k. reflexivity.
   - intros k. cbn. discriminate.
   - intros k. cbn. split; lia.
-  - intros k Hb. now contradiction Hb.
   - intros k Hb. now contradiction Hb.
 Qed.
 
@@ -227,3 +226,46 @@ Proof.
     split; auto. cbn [map]. rewrite Hv by (apply Hrk; now left). now rewrite Hvs.
 Qed.
 End Inc.
+
+(* ---------- histories in which the rule table is edited between builds ---------- *)
+(* every build has its own rule table (and rank function); all tables agree with one table R of rules by key and signature
+   (table_ok, as in Properties_C01: editing a rule changes its signature) *)
+Record rbspec := mkRb { rb_rules : key -> rule; rb_rank : key -> nat; rb_build : bspec }.
+Section Edits.
+Variable F : key -> N -> list value -> list N -> N -> N.
+Variable R : key -> N -> rule.
+Variable ord : key -> list rkind.
+Variable syncp : key -> bool.
+Hypothesis Hord : forall k, In RReq (ord k).
+Fixpoint run_rbuilds (s : istate) (bs : list rbspec) : option (istate * list (option value)) :=
+  match bs with
+  | [] => Some (s, [])
+  | rb :: bs' =>
+    let b := rb_build rb in
+    match ibuild (rb_rules rb) (bs_env b) F ord syncp (bs_fuel b) (bs_pfuel b) s (bs_root b) (bs_sched b) with
+    | (RDone s', _) =>
+      match is_fault s' with
+      | None => match run_rbuilds s' bs' with Some (sf, vs) => Some (sf, res_value (res_of s' (bs_root b)) :: vs) | None => None end
+      | Some _ => None
+      end
+    | _ => None
+    end
+  end.
+Definition rb_ok (cfuel : nat) (rb : rbspec) : Prop :=
+  wf_rank (rb_rules rb) (rb_rank rb) /\ wf_disc (rb_rules rb) /\ table_ok (rb_rules rb) R /\ (rb_rank rb (bs_root (rb_build rb)) < cfuel)%nat.
+
+Theorem rhistory_values_clean cfuel bs : forall s sf vs, (forall rb, In rb bs -> rb_ok cfuel rb) -> HInv F R s -> run_rbuilds s bs = Some (sf, vs) ->
+  vs = map (fun rb => cv (rb_rules rb) (bs_env (rb_build rb)) F cfuel (bs_root (rb_build rb))) bs /\ HInv F R sf.
+Proof.
+  induction bs as [|rb bs IH]; intros s sf vs Hok Hh Hrun; cbn [run_rbuilds] in Hrun.
+  - inversion Hrun. subst. auto.
+  - cbn zeta in Hrun. set (b := rb_build rb) in *.
+    destruct (ibuild (rb_rules rb) (bs_env b) F ord syncp (bs_fuel b) (bs_pfuel b) s (bs_root b) (bs_sched b)) as [r m] eqn:Hb.
+    destruct r as [s'| | |]; try discriminate. destruct (is_fault s') eqn:Hf; [discriminate|].
+    destruct (run_rbuilds s' bs) as [[sf' vs']|] eqn:Hrest; [|discriminate]. inversion Hrun. subst sf vs.
+    destruct (Hok rb (or_introl eq_refl)) as (H1 & H2 & H3 & H4).
+    destruct (build_values_clean (rb_rules rb) F (rb_rank rb) R ord syncp H1 H2 H3 Hord (bs_env b) (bs_fuel b) (bs_pfuel b) cfuel s (bs_root b) (bs_sched b) s' m Hh Hb Hf) as [Hv Hh'].
+    destruct (IH s' sf' vs') as [Hvs Hhf]; auto; [intros rb' Hrb'; apply Hok; now right|].
+    split; auto. cbn [map]. fold b. rewrite (Hv H4). now rewrite Hvs.
+Qed.
+End Edits.
